@@ -109,9 +109,12 @@ pub struct Prep {
     pub em_dest: Pubkey,
     /// a second, unrelated group created by the liquidator, who is its admin and risk admin (group creation is permissionless)
     pub foreign_group: Pubkey,
+    /// the collateral bank's collateral-value cap is tighter than what the bank holds (initial-weight discount active)
+    pub cap_active: bool,
 }
 
 fn prepare(c: &BrCase, c10: bool) -> Option<Prep> {
+    let mut cap_active = false;
     let mut w = World::build(&c.spec).ok()?;
     let (ab, lb) = (0usize, 1usize);
     let lender = w.users[0].clone();
@@ -169,6 +172,22 @@ fn prepare(c: &BrCase, c10: bool) -> Option<Prep> {
     }
     let ix = w.ix_borrow(u.accts[0], u.auth, lb, u.tokens[lb], amt);
     w.vm.exec(&ix).ok()?;
+    // in a third of the C10 worlds the limit admin now tightens the collateral bank's collateral-value cap to a third of
+    // what the bank holds: the initial-weight discount is ACTIVE from here on. It must only matter for initial health -
+    // the bracket's maintenance comparison and its equity-based premium test must not feel it.
+    if c10 && c.extra_seed % 3 == 0 {
+        let ba = w.bank(ab);
+        let ov = oracle_view(&w.vm, &ba, w.vm.now());
+        if let Some(p) = ov.low(PriceKind::Ema) {
+            let value = q_w(ba.total_asset_shares) * q_w(ba.asset_share_value) * &p.lo / pow10(w.banks[ab].decimals as u32);
+            if let Some(lim) = q_floor(&(value / q_int(3))).to_u64() {
+                let ix = w.ix_configure_limits_only(ab, None, None, Some(lim.max(1)), w.roles.limit);
+                if w.vm.exec(&ix).is_ok() {
+                    cap_active = true;
+                }
+            }
+        }
+    }
     // liquidation records (separate transactions, as a liquidator would do)
     for acct in [u.accts[0], v.accts[0]] {
         let ix = w.ix_init_liq_record(acct, l.auth);
@@ -271,7 +290,7 @@ fn prepare(c: &BrCase, c10: bool) -> Option<Prep> {
         };
         w.vm.exec(&ix).ok()?;
     }
-    Some(Prep { w, u, v, l, w_amt, r_amt, em_dest, empty_acct, big_borrow: (power.saturating_mul(3)).min(liq / 2).max(amt), small_borrow: (amt / 50).max(1), foreign_group })
+    Some(Prep { w, u, v, l, w_amt, r_amt, em_dest, empty_acct, big_borrow: (power.saturating_mul(3)).min(liq / 2).max(amt), small_borrow: (amt / 50).max(1), foreign_group, cap_active })
 }
 
 // ------------------------------------------------------------------------------------------
@@ -521,6 +540,7 @@ pub struct Stats {
     pub skipped_health_checks: u64,
     pub premium_frontier: (u64, u64),
     pub prepared: bool,
+    pub cap_active_worlds: u64,
     pub hostile_oracle_probes: u64,
     pub samples: Vec<Value>,
 }
@@ -812,6 +832,9 @@ fn hostile_oracle_probes(p: &Prep, c: &BrCase, stats: &mut Stats) -> Result<(), 
 pub fn run_case(c: &BrCase, c10: bool, stats: &mut Stats, shard: Option<(usize, usize)>) -> Result<(), (String, Vec<u8>, String)> {
     let Some(p) = prepare(c, c10) else { return Ok(()) };
     stats.prepared = true;
+    if p.cap_active {
+        stats.cap_active_worlds += 1;
+    }
     if c10 && c.shapes.is_empty() && shard.map(|(i, _)| i == 0).unwrap_or(true) {
         hostile_oracle_probes(&p, c, stats)?;
     }
@@ -918,7 +941,7 @@ pub fn run_case(c: &BrCase, c10: bool, stats: &mut Stats, shard: Option<(usize, 
     Ok(())
 }
 
-const RULE_C10: &str = "per generated world (2 banks; generated decimals, token programs, weights, oracles; a borrower steered to a generated maintenance health, mostly liquidatable, sometimes healthy; liquidation records created): EXHAUSTIVE enumeration of all transaction shapes up to the stated length over the 31-symbol alphabet (incl. trailing-byte variants of start/end, a start whose observation accounts lack the collateral bank an end without observation accounts, and a deleverage start / end run by the risk admin of an unrelated group) {compute-budget, start(U), start(V), end(U), end(V), withdraw(U) by third party, big withdraw, repay(U), borrow(U), deposit(U), init-record, kamino-refresh (whitelisted), allowed-program swap, short-data ix, unknown-program ix, flash start/end, and start/end/withdraw/repay via CPI from an allow-listed proxy program} plus random longer shapes; every shape executed as one atomic transaction through the real entry point. Commit-time oracle: no receivership flag / receiver survives; if a third party controlled the account then the shape is in the language written from the statement (start first after compute/whitelisted, end last, only withdraw/repay/record-init between, allowed programs, no CPI), the account was not healthy, health not worse, not ended healthy and premium <= max(fee,5%) unless equity < $5 (definite breaches on enclosures, under both price readings). Non-trivial = committed transactions in which a third party controlled the account; distinct by (shape, world hash).";
+const RULE_C10: &str = "per generated world (2 banks; generated decimals, token programs, weights, oracles; a borrower steered to a generated maintenance health, mostly liquidatable, sometimes healthy; in a third of the worlds the limit admin then tightens the collateral bank's collateral-value cap to a third of what the bank holds - an active initial-weight discount that the bracket's maintenance and equity measures must not feel; liquidation records created): EXHAUSTIVE enumeration of all transaction shapes up to the stated length over the 31-symbol alphabet (incl. trailing-byte variants of start/end, a start whose observation accounts lack the collateral bank an end without observation accounts, and a deleverage start / end run by the risk admin of an unrelated group) {compute-budget, start(U), start(V), end(U), end(V), withdraw(U) by third party, big withdraw, repay(U), borrow(U), deposit(U), init-record, kamino-refresh (whitelisted), allowed-program swap, short-data ix, unknown-program ix, flash start/end, and start/end/withdraw/repay via CPI from an allow-listed proxy program} plus random longer shapes; every shape executed as one atomic transaction through the real entry point. Commit-time oracle: no receivership flag / receiver survives; if a third party controlled the account then the shape is in the language written from the statement (start first after compute/whitelisted, end last, only withdraw/repay/record-init between, allowed programs, no CPI), the account was not healthy, health not worse, not ended healthy and premium <= max(fee,5%) unless equity < $5 (definite breaches on enclosures, under both price readings). Non-trivial = committed transactions in which a third party controlled the account; distinct by (shape, world hash).";
 const RULE_C11: &str = "per generated world (account normal / frozen / disabled-by-transfer): EXHAUSTIVE enumeration of all transaction shapes up to the stated length over the 31-symbol alphabet (incl. an end for another account that merely lists U, a trailing-byte end, and ends whose observation accounts are missing or lack the borrowed bank) {flash start naming end index 0,1,2,3,4,9 and 65536+0, 65536+1, 2^32+1 (aliases of 0 / 1 under 16- / 32-bit narrowing); end(U); end(V); big borrow (unhealthy); small borrow; big withdraw; deposit; repay_all; classic liquidate(U); bankruptcy(U); start_liquidation(U); end_liquidation(U); transfer(U); close(U); start/end/borrow via CPI; compute-budget} plus random longer shapes, each executed atomically. Oracle: per executed instruction — a start that set the flag named a later end(U) of this program, was top-level, on an unflagged account, not nested; liquidation/bankruptcy/start_liquidation never succeed on a flagged account; at commit — no flash-loan flag survives, and if an action inside left the account initially unhealthy (reference model) then an end(U) follows and the account is not unhealthy at commit. Non-trivial = committed transactions containing a borrow/withdraw that skipped the health check.";
 
 pub fn run(ctx: &Ctx, c10: bool) -> Report {
@@ -971,6 +994,7 @@ pub fn run(ctx: &Ctx, c10: bool) -> Report {
             let r = run_case(c, c10, &mut st, None);
             rep.evaluations += st.shapes;
             rep.add_extra("sweep_worlds", st.prepared as u64);
+            rep.add_extra("worlds_with_an_active_collateral_value_cap", st.cap_active_worlds);
             rep.add_extra("hostile_oracle_bracket_probes", st.hostile_oracle_probes);
             rep.add_extra("amount_sweep_committed", st.premium_frontier.0);
             rep.add_extra("amount_sweep_rejected", st.premium_frontier.1);
@@ -990,6 +1014,9 @@ pub fn run(ctx: &Ctx, c10: bool) -> Report {
             let r = run_case(c, c10, &mut st, Some((wi, n)));
             rep.evaluations += st.shapes;
             rep.add_extra("committed", st.committed);
+            if wi == 0 {
+                rep.add_extra("worlds_with_an_active_collateral_value_cap", st.cap_active_worlds);
+            }
             rep.add_extra("committed_with_third_party_control", st.committed_with_control);
             rep.add_extra("in_language", st.in_language);
             rep.add_extra("hostile_oracle_bracket_probes", st.hostile_oracle_probes);
